@@ -162,7 +162,9 @@ def nnx_attrs_to_linen_vars(nnx_attrs: dict) -> dict:
       # a tuple / list valued Linen variable (e.g. what `sow` accumulates) was
       # converted to one NNX variable per element
       cols, vals = zip(*(convert(x) for x in v))
-      col_name, v = cols[0], type(v)(vals)
+      # (a namedtuple is rebuilt from positional fields, not from one iterable)
+      col_name = cols[0]
+      v = type(v)(*vals) if hasattr(v, '_fields') else type(v)(vals)
     else:
       col_name, v = convert(v)
     linen_structured[(col_name, *kp)] = v
